@@ -1,7 +1,81 @@
 (* C03 proofs, part 1: strings, dictionaries, hamming_circle, sorted(). *)
-From Coq Require Import ZArith List Bool Arith Lia Permutation Sorted.
+From Coq Require Import ZArith List Bool Arith Lia Permutation Sorted ZifyBool.
 Import ListNotations.
-From SCMO Require Import Lib.Val Model.C03.
+From SCMO Require Import Lib.Val Lib.PyInt Gen.GenBarcode Model.C03.
+
+(* ------------------------------------------------------------------ shape of the REGENERATED kernel
+   (Gen/GenBarcode.v is rewritten from the source on every run).  Each lemma says the generated definition
+   is the one the hand-written proofs below assume; proved by lia / case analysis so that arithmetically
+   equivalent rewrites of the source (k+1 -> 1+k, len > 1 -> len >= 2, a == b -> b == a) still pass, and
+   anything else (== -> <, k+1 -> k, [1] -> [-1], another alphabet) stops here. *)
+Lemma zrange_from_nat n : forall a, map Z.to_nat (zrange_from (Z.of_nat a) n) = seq a n.
+Proof.
+  induction n as [|n IH]; intros a; cbn [zrange_from map seq]; [reflexivity|].
+  rewrite Nat2Z.id. f_equal. replace (Z.of_nat a + 1)%Z with (Z.of_nat (S a)) by lia. apply IH.
+Qed.
+
+Lemma zrange_nat lo hi a n : lo = Z.of_nat a -> (hi - lo)%Z = Z.of_nat n -> map Z.to_nat (zrange lo hi) = seq a n.
+Proof. intros -> H. unfold zrange. rewrite H, Nat2Z.id. apply zrange_from_nat. Qed.
+
+(* expand: for hammingDistance in range(0, k + 1)  ==  distances 0, 1, ..., k *)
+Lemma gen_dist_range_shape k : map Z.to_nat (gen_dist_range (Z.of_nat k)) = seq 0 (S k).
+Proof. unfold gen_dist_range. apply zrange_nat; lia. Qed.
+
+(* expand: skip iff there are at least two entries and the two smallest distances are equal *)
+Lemma gen_tie_shape len dist : gen_tie len dist = ((1 <? len)%Z && (dist 0 =? dist 1)%Z).
+Proof. unfold gen_tie. lia. Qed.
+
+(* expand: otherwise the first entry of the sorted list is assigned *)
+Lemma gen_pick_index_shape len : gen_pick_index len = 0%Z.
+Proof. unfold gen_pick_index. lia. Qed.
+
+(* hamming_circle: the alphabet expand passes, r ranges over all but the last letter, and a position holding
+   alphabet[r] is replaced by the last letter *)
+Lemma gen_alphabet_shape : gen_alphabet = [65; 67; 84; 71; 78]%Z.
+Proof. reflexivity. Qed.
+
+Lemma gen_repl_range_shape alen : gen_repl_range alen = zrange 0 (alen - 1).
+Proof. unfold gen_repl_range. f_equal; lia. Qed.
+
+Lemma gen_replace_shape alen aat cur ar :
+  gen_replace alen aat cur ar = if (cur =? ar)%Z then aat (alen - 1)%Z else ar.
+Proof.
+  unfold gen_replace.
+  repeat match goal with |- context [Z.eqb ?a ?b] => destruct (Z.eqb_spec a b) end;
+    try reflexivity; try (f_equal; lia); try lia.
+Qed.
+
+(* lookup: exact table, then extended table, then the lazy load *)
+Lemma gen_lookup_order_shape : gen_lookup_order = [0; 1; 2]%Z.
+Proof. reflexivity. Qed.
+
+Lemma lookup_unfold t q :
+  lookup t q = match dget q (bcs t) with Some i => Some (i, q, 0%nat) | None => dget q (ext t) end.
+Proof.
+  unfold lookup. rewrite gen_lookup_order_shape. cbn. unfold lookup_stage. cbn.
+  destruct (dget q (bcs t)); [reflexivity|]. destruct (dget q (ext t)); reflexivity.
+Qed.
+
+Lemma get_unfold p q :
+  get p q =
+  match lookup (p_tab p) q with
+  | Some a => (p, Ans (Some a))
+  | None =>
+      match p_pending p with
+      | None => (p, Ans None)
+      | Some lines =>
+          match expand (p_k p) (load_into (p_tab p) lines) with
+          | Ok t' => ({| p_k := p_k p; p_pending := None; p_tab := t' |}, Ans (lookup t' q))
+          | _ => (p, Raised)
+          end
+      end
+  end.
+Proof.
+  rewrite lookup_unfold. unfold get. rewrite gen_lookup_order_shape. cbn. unfold lookup_stage. cbn.
+  destruct (dget q (bcs (p_tab p))); [reflexivity|].
+  destruct (dget q (ext (p_tab p))); [reflexivity|].
+  destruct (p_pending p); reflexivity.
+Qed.
 
 (* ------------------------------------------------------------------ strings *)
 Lemma str_eqb_spec a b : reflect (a = b) (str_eqb a b).
@@ -187,7 +261,15 @@ Qed.
 Lemma repl_unfold c : repl alphabet c =
   [ (if Z.eqb c 65 then 78 else 65); (if Z.eqb c 67 then 78 else 67);
     (if Z.eqb c 84 then 78 else 84); (if Z.eqb c 71 then 78 else 71) ]%Z.
-Proof. reflexivity. Qed.
+Proof.
+  unfold repl, alphabet. rewrite gen_alphabet_shape. cbn [length].
+  change (Z.of_nat 5) with 5%Z. rewrite gen_repl_range_shape.
+  change (zrange 0 (5 - 1)) with [0; 1; 2; 3]%Z. cbn [map].
+  rewrite !gen_replace_shape. reflexivity.
+Qed.
+
+Lemma alphabet_unfold : alphabet = [65; 67; 84; 71; 78]%Z.
+Proof. unfold alphabet. apply gen_alphabet_shape. Qed.
 
 Lemma repl_neq c r : In r (repl alphabet c) -> r <> c.
 Proof.
@@ -204,7 +286,7 @@ Qed.
 
 Lemma repl_complete c r : alpha c -> alpha r -> r <> c -> In r (repl alphabet c).
 Proof.
-  unfold alpha, alphabet. rewrite repl_unfold. cbn [In]. intros Hc Hr Hne.
+  unfold alpha. rewrite repl_unfold, alphabet_unfold. cbn [In]. intros Hc Hr Hne.
   destruct (Z.eqb_spec c 65), (Z.eqb_spec c 67), (Z.eqb_spec c 84), (Z.eqb_spec c 71); lia.
 Qed.
 
